@@ -389,6 +389,34 @@ impl Scenario for C12 {
     }
 
     fn probe(&self, ctx: &Ctx, m: &Model, out: &mut StepOut) {
+        self.token_queries(ctx, m, out);
+        // exported functions the check does not drive by name (today: the aborting asset-interface
+        // stubs): called with nobody's authorisation they must leave the whole token state alone
+        let w = &ctx.w;
+        let addresses = [ctx.addr[A].clone(), ctx.addr[B].clone(), ctx.tok.clone()];
+        let targets: [(&Address, &str, &[&str]); 1] = [(&ctx.tok, "/repo/contracts/interchain-token/src", &axmc::inventory::TOKEN_KNOWN)];
+        for (contract, func, args) in axmc::inventory::unknown_calls(w, "C12", &targets, &addresses, 32) {
+            let snap = w.snap();
+            let call = w.call(&contract, &func, &args, Auth::Nobody);
+            if call.ok {
+                let mut o = StepOut::default();
+                self.token_queries(ctx, m, &mut o);
+                out.checks += o.checks;
+                for mm in o.mismatches {
+                    out.fail("unknown-entry-point.changed-token-state", format!("after `{}` (not among the known entry points) was called with nobody's authorisation: {} :: {}", func, mm.sig, mm.detail));
+                }
+            }
+            w.restore(&snap);
+        }
+    }
+
+    fn must_succeed_kinds(&self) -> Vec<&'static str> {
+        vec!["mint", "mint_from", "transfer", "approve", "transfer_from", "burn", "burn_from", "admin_change", "add_minter"]
+    }
+}
+
+impl C12 {
+    fn token_queries(&self, ctx: &Ctx, m: &Model, out: &mut StepOut) {
         let w = &ctx.w;
         let ad = &ctx.addr;
         let mut sum: (u128, u128) = (0, 0);
@@ -418,9 +446,6 @@ impl Scenario for C12 {
         out.expect(q == Some(w.sc_addr_val(&ad[m.owner])), "probe.owner", || format!("{:?} vs {}", q, m.owner));
     }
 
-    fn must_succeed_kinds(&self) -> Vec<&'static str> {
-        vec!["mint", "mint_from", "transfer", "approve", "transfer_from", "burn", "burn_from", "admin_change", "add_minter"]
-    }
 }
 
 fn main() {
